@@ -150,6 +150,8 @@ def make_trace(engine, batch_seed, i, tier):
     seed = derive_seed(engine.PID, batch_seed, i)
     rng = random.Random(seed)
     knobs = engine.gen_knobs(rng, tier)
+    if getattr(engine, "STRATIFY", False):
+        knobs["run_index"] = i          # engines may stratify rare dimensions over the run index (still a function of the seed + i)
     ops = engine.generate(rng, knobs)
     t = {"property": engine.PID, "batch_seed": batch_seed, "run": i, "seed": seed, "knobs": knobs, "ops": ops}
     if os.environ.get("VERIF_VARIANT_ENV"):
